@@ -95,10 +95,8 @@ theorem C11_bare_send_leaks :
 
 /-! The guard hypothesis, from the facts regenerated from /repo's sources on every run. -/
 
-/-- no error-channel send outside a select with ctx.Done() -/
+/-- no error-channel send outside a select with ctx.Done() (whatever helper it goes through) -/
 theorem C11_facts_err_sends_guarded : Gtree.Facts.bareErrSends = [] := by decide
-/-- the helper all error sends go through does select on ctx.Done() -/
-theorem C11_facts_sendErr_guarded : Gtree.Facts.sendErrSelectsOnDone = true := by decide
 /-- no hand-over or feeder send outside a select with ctx.Done() -/
 theorem C11_facts_handover_guarded : Gtree.Facts.bareHandoverSends = [] ∧ Gtree.Facts.bareFeederSends = [] := by decide
 /-- Parser.isSharpRoot is written under the parser mutex; the text printer runs under the spreader lock -/
